@@ -212,6 +212,141 @@ def canary_contract(en: E.Engine):
     en.ensure('canary: clip=False still clips', z3.And(w[0] == su, w[1] == sv))
 
 
+# ---- shallow-water explicit tendencies as operator expressions (C05 / C11) -----------------------------------------------------------------
+
+NMUL = z3.Function('nodal_mul', Fld, Fld, Fld)           # pointwise product of two nodal fields
+MIX = z3.Function('layer_mix', Fld, Fld)                 # einsum('ab,...bml->...aml', density_ratios, .): the inter-layer coupling (get_density_ratios: C05 clause)
+LAP = z3.Function('laplacian', Fld, Fld)
+CORIOLIS, SEC2F, ORO = (z3.Const(n, Fld) for n in ('coriolis_parameter', 'sec2_lat', 'orography'))
+
+
+class Stack(list):
+  """Fields stacked along a new leading axis (jnp.stack / concatenate / split along axis 0)."""
+
+
+def _sw_setup(en):
+  _setup(en)
+  import jax
+  import jax.numpy as jnp
+  from dinosaur import shallow_water as sw
+  from vlib.pyvc.libspec import _reg
+  base = en.sort_ops['Fld']
+
+  def mul(en_, a, b):
+    if _is_fld(a) and _is_fld(b):
+      return NMUL(a, b)
+    return base['Mult'](en_, a, b)
+  en.sort_ops['Fld'] = dict(base, Mult=mul)
+
+  def stack_op(name):
+    def f(en_, a, b):
+      from vlib.pyvc import engine as E_
+      opn = {'Add': E.ast.Add, 'Sub': E.ast.Sub, 'Mult': E.ast.Mult, 'Div': E.ast.Div}[name]()
+      if isinstance(a, Stack) and isinstance(b, Stack):
+        if len(a) != len(b):
+          raise E.Unsupported('stacks of different length')
+        return Stack(en_.binop(opn, x, y) for x, y in zip(a, b))
+      if isinstance(a, Stack):
+        return Stack(en_.binop(opn, x, b) for x in a)
+      return Stack(en_.binop(opn, a, y) for y in b)
+    return f
+  for nm in ('Add', 'Sub', 'Mult', 'Div'):
+    en.libspec[('binop', 'Stack', nm)] = (None, stack_op(nm))
+  _reg(en, jnp.stack, lambda en_, xs, axis=0: Stack(xs) if axis == 0 else (_ for _ in ()).throw(E.Unsupported('stack axis')), 'jnp.stack(axis=0)')
+
+  def h_concat(en_, parts, axis=0):
+    if axis != 0:
+      raise E.Unsupported('concatenate axis')
+    out = Stack()
+    for p_ in parts:
+      if not isinstance(p_, Stack):
+        raise E.Unsupported('concatenate of a non-stack')
+      out.extend(p_)
+    return out
+  _reg(en, jnp.concatenate, h_concat, 'jnp.concatenate(axis=0) of stacks')
+  _reg(en, jnp.expand_dims, lambda en_, x, axis=0: Stack([x]) if axis == 0 and _is_fld(x) else (_ for _ in ()).throw(E.Unsupported('expand_dims')), 'jnp.expand_dims(x, 0)')
+
+  def h_split(en_, x, idx, axis=0):
+    if not isinstance(x, Stack) or axis != 0:
+      raise E.Unsupported('split')
+    cuts = [0] + list(en_.iter_concrete(idx)) + [len(x)]
+    return [Stack(x[a:b]) for a, b in zip(cuts[:-1], cuts[1:])]
+  _reg(en, jnp.split, h_split, 'jnp.split(stack, indices, axis=0)')
+
+  def h_squeeze(en_, x, axis=0):
+    if isinstance(x, Stack) and len(x) == 1 and axis == 0:
+      return x[0]
+    raise E.Unsupported('squeeze')
+  _reg(en, jnp.squeeze, h_squeeze, 'jnp.squeeze(stack of one, 0)')
+  en.libspec[('attr', 'Stack', 'sum')] = (None, lambda en_, st: E.SymCallable(lambda en__, axis=None: _sum_stack(st) if axis == 0 else (_ for _ in ()).throw(E.Unsupported('sum axis')), 'stack.sum(0)'))
+  en.contracts[E._callable_key(sw.einsum)] = lambda en_, spec, a, b: MIX(b) if spec == 'ab,...bml->...aml' and _is_fld(b) else (_ for _ in ()).throw(E.Unsupported(f'einsum {spec}'))
+  en.contracts[E._callable_key(sw.State)] = lambda en_, *a, **k: E.Obj(**dict(zip(('vorticity', 'divergence', 'potential'), a), **k))
+
+  def h_tree_map(en_, f, *trees):
+    t0 = trees[0]
+    if isinstance(t0, E.Obj) and not isinstance(t0, Stack):
+      return E.Obj(**{k: h_tree_map(en_, f, *[getattr(t, k) for t in trees]) for k in ('vorticity', 'divergence', 'potential')})
+    if isinstance(t0, (tuple, list)) and not isinstance(t0, Stack):
+      return type(t0)(h_tree_map(en_, f, *[t[i] for t in trees]) for i in range(len(t0)))
+    kind, r = en_.invoke(f, *trees)
+    if kind == 'raise':
+      raise E.PathRaise(r)
+    return r
+  _reg(en, jax.tree.map, h_tree_map, 'jax.tree.map (leaf-wise)')
+  _reg(en, jax.tree_util.tree_map, h_tree_map, 'jax.tree_util.tree_map (leaf-wise)')
+
+
+def _sum_stack(st):
+  r = st[0]
+  for x in st[1:]:
+    r = ADD(r, x)
+  return r
+
+
+def _lift(f):
+  def g(en_, x, *a, **k):
+    if isinstance(x, Stack):
+      return Stack(f(v) for v in x)
+    if isinstance(x, (tuple, list)):
+      return type(x)(f(v) for v in x)
+    return f(x)
+  return g
+
+
+def shallow_water_contract(en: E.Engine):
+  """ShallowWaterEquations.explicit_terms == the vorticity-divergence form of the layered shallow-water equations, operator by operator:
+       d zeta / dt = -div((zeta + f) u),   d delta / dt = curl((zeta + f) u) - lap(p + |u|^2 / 2),   d Phi / dt = -div(Phi u),
+  with u cos(lat) = get_cos_lat_vector(zeta, delta), p = layer_mix(Phi) + orography, every product taken in grid space on the clipped state and
+  every tendency clipped at the top total wavenumber."""
+  _neg_fix(en)
+  from dinosaur import shallow_water as sw
+  g, r = _grid(en)
+  for nm, f in (('to_nodal', TON), ('to_modal', TOM), ('laplacian', LAP)):
+    setattr(g, nm, E.SymCallable(_lift(f), f'Grid.{nm} (uninterpreted, leaf-wise over stacks)'))
+  g.sec2_lat = SEC2F
+  zeta, delta, phi = (z3.Const(n, Fld) for n in ('vorticity', 'divergence', 'potential'))
+  self = E.Obj(class_ref=sw.ShallowWaterEquations, coords=E.Obj(horizontal=g), orography=ORO, coriolis_parameter=CORIOLIS, density_ratios=z3.Const('density_ratios', z3.DeclareSort('LayerMatrix')))
+  en.cover('requires: radius > 0')
+  kind, out = en.invoke(en.getattr(self, 'explicit_terms'), E.Obj(vorticity=zeta, divergence=delta, potential=phi))
+  if kind == 'raise':
+    en.ensure(f'explicit_terms runs ({out})', False)
+    return
+  u0, u1 = _wind_spec(zeta, delta, r, True)                                     # get_cos_lat_vector with its default clip
+  nu0, nu1 = TON(u0), TON(u1)
+  tv = ADD(TON(CLIP(zeta)), CORIOLIS)
+  nphi = TON(CLIP(phi))
+  b = [TOM(NMUL(NMUL(c, tv), SEC2F)) for c in (nu0, nu1)]
+  gq = [TOM(NMUL(NMUL(c, nphi), SEC2F)) for c in (nu0, nu1)]
+  e = TOM(DIVS(NMUL(ADD(NMUL(nu0, nu0), NMUL(nu1, nu1)), SEC2F), z3.RealVal(2)))
+  div = lambda v: CLIP(DIVS(ADD(DLON(v[0]), SLDC(v[1])), r))
+  curl = lambda v: CLIP(DIVS(SUB(DLON(v[1]), SLDC(v[0])), r))
+  p = ADD(MIX(phi), ORO)
+  ensure_expr(en, 'vorticity tendency == clip(-div_cos_lat((zeta + f) u sec^2))', out.vorticity == CLIP(NEG(div(b))))
+  ensure_expr(en, 'divergence tendency == clip(-laplacian(layer_mix(Phi) + orography + |u|^2 sec^2 / 2) + curl_cos_lat((zeta + f) u sec^2)): the orography sits inside the clipped expression',
+              out.divergence == CLIP(ADD(NEG(LAP(ADD(p, e))), curl(b))))
+  ensure_expr(en, 'potential tendency == clip(-div_cos_lat(Phi u sec^2))', out.potential == CLIP(NEG(div(gq))))
+
+
 def replay_wind(w):
   """Native: with clip=False the top total wavenumber of both wind components must carry the contribution of divergence and vorticity at
   l = L-2 (it is produced by the latitude derivative); compare against the same expression assembled from the elementary operators."""
@@ -243,6 +378,48 @@ def replay_wind(w):
       if err > 1e-12:
         msgs.append(f'{impl.__name__}: uv_nodal_to_vor_div_modal(clip={clip}) differs from (curl, div) assembled from the elementary operators by {err:.3e}')
   return bool(msgs), ('; '.join(msgs[:3]) if msgs else 'wind conversions equal the documented operator expressions for clip=True and clip=False')
+
+
+def replay_shallow_water(w):
+  """Native: explicit_terms against the same expression assembled from the Grid's elementary operators (two layers, un-truncated mountain)."""
+  import numpy as np
+  import jax
+  jax.config.update('jax_enable_x64', True)
+  import jax.numpy as jnp
+  from dinosaur import coordinate_systems as cs, layer_coordinates, scales, shallow_water as sw, spherical_harmonic as sh
+  rng = np.random.RandomState(12)
+  g = sh.Grid(longitude_wavenumbers=5, total_wavenumbers=6, longitude_nodes=16, latitude_nodes=8)
+  coords = cs.CoordinateSystem(g, layer_coordinates.LayerCoordinates(2))
+  u = scales.units
+  specs = sw.ShallowWaterSpecs.from_si(densities=np.array([900.0, 1100.0]) * u.kg / u.m ** 3)
+  mask = np.asarray(g.mask)
+  oro = jnp.asarray(np.where(mask, 0.05 * rng.randn(*g.modal_shape), 0.0))
+  eq = sw.ShallowWaterEquations(coords=coords, physics_specs=specs, orography=oro, reference_potential=np.array([1.0, 2.0]))
+  f = lambda: jnp.asarray(np.where(mask, rng.randn(2, *g.modal_shape), 0.0)).at[:, 0, 0].set(0.0)
+  st = sw.State(f(), f(), f())
+  got = eq.explicit_terms(st)
+  uu = sh.get_cos_lat_vector(st.vorticity, st.divergence, g)
+  nu = [g.to_nodal(c) for c in uu]
+  tv = g.to_nodal(g.clip_wavenumbers(st.vorticity)) + eq.coriolis_parameter
+  nphi = g.to_nodal(g.clip_wavenumbers(st.potential))
+  s2 = g.sec2_lat
+  b = [g.to_modal(c * tv * s2) for c in nu]
+  gq = [g.to_modal(c * nphi * s2) for c in nu]
+  e = g.to_modal((nu[0] * nu[0] + nu[1] * nu[1]) * s2 / 2)
+  rho = np.asarray(specs.densities, float)
+  D = np.array([[rho[j] / rho[i] if j < i else (1.0 if j > i else 0.0) for j in range(2)] for i in range(2)])     # hydrostatic coupling (off-diagonal part)
+  p = jnp.einsum('ab,bml->aml', D, st.potential) + oro
+  want = (g.clip_wavenumbers(-g.div_cos_lat(b)), g.clip_wavenumbers(-g.laplacian(p + e) + g.curl_cos_lat(b)), g.clip_wavenumbers(-g.div_cos_lat(gq)))
+  errs = [float(jnp.abs(a - b_).max()) for a, b_ in zip((got.vorticity, got.divergence, got.potential), want)]
+  top = max(float(jnp.abs(a[..., g.total_wavenumbers - 1:]).max()) for a in (got.vorticity, got.divergence, got.potential))
+  bad = max(errs) > 1e-10 * max(1.0, float(jnp.abs(want[1]).max())) or top != 0.0
+  return bad, f'shallow-water explicit_terms vs the documented operator expression: max differences (vorticity, divergence, potential) = {errs}; max |top-wavenumber entry| = {top:.3e}'
+
+
+def sw_clauses():
+  rc = lambda c, n=2: (lambda ctx: run_contract(c, min_obligations=n, setup=_sw_setup, timeout_ms=30000))
+  return [Clause('smt:ShallowWaterEquations.explicit_terms == vorticity-divergence form of the layered shallow-water equations as an operator expression; every tendency clipped, orography inside the clip (all fields, sizes, layer counts)', 'smt',
+                 ['dinosaur.shallow_water.ShallowWaterEquations.explicit_terms', 'dinosaur.shallow_water.state_to_nodal', SH + 'get_cos_lat_vector'], rc(shallow_water_contract, 4), replay=replay_shallow_water, group='pyvc')]
 
 
 def clauses():
